@@ -13,6 +13,10 @@ sys.path.insert(0, ROOT)
 os.environ.setdefault("VERIF_TIER", "quick")
 
 
+def esc(x) -> str:
+    return str(x).replace("|", "\\|").replace("\n", " ")
+
+
 def obligations_md() -> str:
     from vf.registry import REGISTRY
 
@@ -30,7 +34,7 @@ def obligations_md() -> str:
         for o in by[pid]:
             eng = "E1 CrossHair" if o.kind == "crosshair" else "E2/E3 SMT"
             out.append(
-                f"| `{o.name.split('.', 1)[1]}` | {eng} | {'; '.join(o.encodes)} | {o.bounds} | {'; '.join(o.stubs) or '-'} | {o.carve or '-'} |".replace("\n", " ")
+                f"| `{o.name.split('.', 1)[1]}` | {eng} | {esc('; '.join(o.encodes))} | {esc(o.bounds)} | {esc('; '.join(o.stubs) or '-')} | {esc(o.carve or '-')} |"
             )
         out.append("")
     return "\n".join(out)
@@ -40,7 +44,7 @@ def findings_md() -> str:
     d = json.load(open(os.path.join(ROOT, "known_findings.json")))
     out = ["| id | property | what fails | why recorded rather than repaired |", "|---|---|---|---|"]
     for f in d["findings"]:
-        out.append(f"| {f['id']} | {f['property']} | {f['what']} | {f.get('why_not_fixed', '')} |".replace("\n", " "))
+        out.append(f"| {f['id']} | {f['property']} | {esc(f['what'])} | {esc(f.get('why_not_fixed', ''))} |")
     out.append("")
     out.append("Repaired (`fix:` commits in /repo, each re-found by its check when reverted):\n")
     for f in d["fixed"]:
@@ -57,7 +61,7 @@ def seeds_md() -> str:
             continue
         det = ", ".join(m.get("detected_by") or []) or ("**not detected**" if not m.get("detected") else "")
         out.append(
-            f"| {os.path.basename(d)} | {m.get('property')} | {str(m.get('summary', ''))[:260]} | {str(m.get('needs', ''))[:200]} | {det} | {str(m.get('note', ''))[:300]} |".replace("\n", " ")
+            f"| {os.path.basename(d)} | {m.get('property')} | {esc(str(m.get('summary', ''))[:260])} | {esc(str(m.get('needs', ''))[:200])} | {det} | {esc(str(m.get('note', ''))[:300])} |"
         )
     return "\n".join(out)
 
